@@ -4,7 +4,7 @@ fragments module and of the operation modules — the ACTUAL iteration orders of
 (= the oracle of Model/Nondet.v) and what the real functions returned.
 
 No hook in the repository: the wrappers are installed from here, call the original, and only read.
-request: {"cmd": "gen"|"probe", ...gen_worker request...}
+request: {"cmd": "gen"|"probe", "listing_order": null|"reverse"|"shuffle:<n>", ...gen_worker request...}
 """
 import json
 import os
@@ -83,7 +83,34 @@ def install_probes(rec):
 PROBES = {"installed": False, "missing": [], "rec": {}}
 
 
+def with_listing_order(order, fn):
+    """Run fn() while pathlib's glob hands out its results in another order (reverse / seeded shuffle):
+    the operating system may list a directory in any order; this is the oracle of Model/Nondet.v load_dir,
+    injected at the pathlib boundary (the generator's code is untouched)."""
+    import pathlib
+    import random
+
+    orig = pathlib.Path.glob
+
+    def glob(self, pattern, **kw):
+        items = list(orig(self, pattern, **kw))
+        if order == "reverse":
+            items.reverse()
+        elif order.startswith("shuffle:"):
+            random.Random(int(order.split(":")[1])).shuffle(items)
+        return iter(items)
+
+    pathlib.Path.glob = glob
+    try:
+        return fn()
+    finally:
+        pathlib.Path.glob = orig
+
+
 def handle(req):
+    if req.get("listing_order"):
+        order = req.pop("listing_order")
+        return with_listing_order(order, lambda: handle(req))
     cmd = req.get("cmd", "gen")
     if cmd == "probe":
         if not PROBES["installed"]:
